@@ -344,7 +344,20 @@ def ops_strategy():
         st.tuples(st.just('destroy'), st.integers(0, 5)).map(list),
         st.tuples(st.just('label'), st.integers(0, 255), st.integers(-1, 6), st.sampled_from([0x0409, 0x0407, 0x040C, 0x0809, 0x0C0A, 0x0411]), st.sampled_from([1, 2, 4])).map(list),
         st.tuples(st.just('find'), st.sampled_from([0x6C696761, 0x61620000, 0x61622020, 0x61000000, 0x61202020, 0x61626300, 0x61626320, 2, 3, 5000, 0x7A7A7A7A, 0x20202041])).map(list))
-    return st.lists(op, min_size=1, max_size=40).map(lambda l: [['lang', 0]] + l)
+    def bursts(l):
+        # every other label query becomes a burst: the same label in three languages, in an order fixed by the drawn values (descending and
+        # ascending language ids both occur).  A label query must not depend on the label queries before it (seed S10-C08 resumed the
+        # name-record scan where the previous query for the same name id had ended).
+        out = []
+        for o in l:
+            out.append(o)
+            if o[0] == 'label' and (o[1] + o[2]) % 2 == 0:
+                rot = [0x040C, 0x0409, 0x0407, 0x0809, 0x0C0A]
+                k = (o[1] + o[3]) % len(rot)
+                for lang in (rot[k], rot[(k + 1) % len(rot)], rot[(k + 3) % len(rot)]):
+                    out.append(['label', o[1], o[2], lang, o[4]])
+        return [['lang', 0]] + out
+    return st.lists(op, min_size=1, max_size=40).map(bursts)
 
 
 def worker(ctx):
